@@ -28,17 +28,23 @@ TERMINATED == 2147483647
 SeqSet(s) == {s[i] : i \in 1..Len(s)}
 MaxOf(S) == CHOOSE x \in S : \A y \in S : x >= y
 
+\* ---- tokens longer than MaxTokenLen bytes are dropped by the indexer: they are not in the dictionary, not in
+\* the postings, and they do NOT count in the field norm nor in the total number of tokens.  A token whose
+\* length matters carries it as a 4th member <<key, relative position, position length, bytes>>.
+MaxTokenLen == 65530
+Kept(val) == SelectSeq(val, LAMBDA t : IF Len(t) < 4 THEN TRUE ELSE t[4] <= MaxTokenLen)
+
 \* ---- positions
 AbsVal(val, start) == [i \in 1..Len(val) |-> <<val[i][1], start + val[i][2]>>]
 EndOf(val, start) == MaxOf({start} \cup {start + val[i][2] + val[i][3] : i \in 1..Len(val)})
 RECURSIVE AbsR(_, _, _)
 AbsR(vals, i, start) ==
   IF i > Len(vals) THEN <<>>
-  ELSE AbsVal(vals[i], start) \o AbsR(vals, i + 1, EndOf(vals[i], start) + PositionGap)
+  ELSE AbsVal(Kept(vals[i]), start) \o AbsR(vals, i + 1, EndOf(Kept(vals[i]), start) + PositionGap)
 \* the tokens of a field of one document, as <<key, absolute position>>, in the order indexed
 Toks(vals) == AbsR(vals, 1, 0)
 RECURSIVE NumTokensR(_, _)
-NumTokensR(vals, i) == IF i > Len(vals) THEN 0 ELSE Len(vals[i]) + NumTokensR(vals, i + 1)
+NumTokensR(vals, i) == IF i > Len(vals) THEN 0 ELSE Len(Kept(vals[i])) + NumTokensR(vals, i + 1)
 NumTokens(vals) == NumTokensR(vals, 1)
 
 \* typed values, facets: tokens without positions
